@@ -1,4 +1,4 @@
-import ArrModel.C19
+import ArrModel.C19Pipe
 import Driver.Proto
 /-!
 # Driver.C19
@@ -11,7 +11,8 @@ import Driver.Proto
     repr_parse <ty> <v>                    parse the text back as the unsigned type of the same width, reinterpret
 
 order = none | E:big | E:little | S:<hex utf-8> (&str) | T:<hex utf-8> (String)
-The axis forms use the reference lane semantics `alongRef`.
+The axis forms are computed twice — on the pipeline model of the crate's `apply_along_axis` (`alongPipe`) and on the
+reference lane semantics (`alongRef`); if the two ever differ the answer is `model-split …`, which no observation equals.
 -/
 namespace Driver.C19
 open ArrModel ArrModel.C19 Driver
@@ -65,18 +66,24 @@ def tyInfo? : String → Option (Bool × Nat)
 def reprOf (signed : Bool) (w : Nat) (v : Int) : List Char :=
   if signed then binaryReprSigned w v else binaryRepr v.toNat
 
+/-- answer of an operation that is parametric in the `apply_along_axis` model -/
+def both (run : Along → Res (Arr Nat)) : String :=
+  let p := showRes showNatArr (run alongPipe)
+  let r := showRes showNatArr (run alongRef)
+  if p == r then p else "model-split pipe=[" ++ p ++ "] ref=[" ++ r ++ "]"
+
 def handle (op : String) (args : List String) : Option String :=
   match op, args with
   | "unpack", [a, ax, cnt, ord] => do
     let a ← parseBytes? a; let ax ← parseOpt? parseInt? ax; let cnt ← parseOpt? parseInt? cnt
     let ord ← parseOrder? ord
-    some (showRes showNatArr (unpackBits alongRef a ax cnt ord))
+    some (both fun al => unpackBits al a ax cnt ord)
   | "pack", [a, ax, ord] => do
     let a ← parseBytes? a; let ax ← parseOpt? parseInt? ax; let ord ← parseOrder? ord
-    some (showRes showNatArr (packBits alongRef a ax ord))
+    some (both fun al => packBits al a ax ord)
   | "roundtrip", [a, ax, ord] => do
     let a ← parseBytes? a; let ax ← parseOpt? parseInt? ax; let ord ← parseOrder? ord
-    some (showRes showNatArr (unpackBits alongRef a ax none ord >>= fun u => packBits alongRef u ax ord))
+    some (both fun al => unpackBits al a ax none ord >>= fun u => packBits al u ax ord)
   | "to_bit_order", [ord] => do
     let ord ← parseOrder? ord
     match ord with
